@@ -81,12 +81,17 @@ def conjuncts(f, n):
     return [n]
 
 
-def narrow(prog, g, leaf, member, rng):
+def narrow(prog, g, leaf, member, rng, truth=True):
     """narrow the range of `member` by a comparison `member' OP constant` that holds (member' = member through
     value-preserving casts)"""
+    leaf = g.strip(leaf, casts=False) if leaf is not None else None
+    while leaf is not None and leaf["k"] == "ImplicitCastExpr":
+        leaf = g.strip(leaf["c"][0], casts=False)
     if leaf is None or leaf["k"] != "BinaryOperator" or leaf.get("op") not in (">=", "<=", "<", ">"):
         return rng
     op = leaf["op"]
+    if not truth:
+        op = {">=": "<", "<=": ">", "<": ">=", ">": "<="}[op]
     l, r = g.node(leaf["lhs"]), g.node(leaf["rhs"])
     cl, cr = const_value(g, l), const_value(g, r)
     if cr is None and cl is not None:
@@ -303,11 +308,15 @@ def check(ctx, run):
                     rng = type_range(prog, tab[t][1])
                     # narrow by sign guards taken on this path
                     for k, v, b, cn in p.decisions:
-                        if v is True or (k.startswith("decided:") and v):
-                            for leaf in conjuncts(g, g.nodes[cn]):
-                                rng = narrow(prog, g, leaf, "value_.%s" % wantm, rng)
-                        if k == "(value_.%s < 0)" % wantm and v is False:
-                            rng = (max(rng[0], 0), rng[1])
+                        if k.startswith("decided:"):
+                            if v:
+                                for leaf in conjuncts(g, g.nodes[cn]):
+                                    rng = narrow(prog, g, leaf, "value_.%s" % wantm, rng, True)
+                            continue
+                        leaf = g.nodes[cn]
+                        ak, apol = atom(g, leaf)
+                        if ak == k:
+                            rng = narrow(prog, g, leaf, "value_.%s" % wantm, rng, v == apol)
                     ok, after, lossy = apply_chain(prog, rng, chain)
                     if ok:
                         rr = type_range(prog, rt)
